@@ -104,6 +104,10 @@ def _prov_nodes(v, seen=None):
     elif isinstance(v, (Tup, Lst)):
         for x in v.items:
             yield from _prov_nodes(x, seen)
+    elif isinstance(v, Str):
+        for x in v.parts:  # the values a text was assembled from (f-string, join, +)
+            if not isinstance(x, str):
+                yield from _prov_nodes(x, seen)
     elif isinstance(v, Sym) and v.origin:
         for x in v.origin[1:]:
             if isinstance(x, (list, tuple)):
